@@ -484,6 +484,13 @@ def _menus():
             lambda r=r, c=c, t=t, time_limit=None, **k: E.Snake(
                 num_rows=r, num_cols=c, time_limit=t if time_limit is None else time_limit),
             rows=r, cols=c, time_limit=t)
+    # deep starts: every third case begins after a scripted Hamiltonian-cycle prefix (snakes of 100+ cells on the
+    # default board, nearly full small boards) - states that random or greedy play never reaches
+    for r, c, t, lo, hi in ((12, 12, 20000, 4000, 7500), (6, 6, 4000, 100, 800), (4, 5, 4000, 20, 160)):
+        add("Snake", f"r{r}c{c}t{t}deep",
+            lambda r=r, c=c, t=t, time_limit=None, **k: E.Snake(
+                num_rows=r, num_cols=c, time_limit=t if time_limit is None else time_limit),
+            rows=r, cols=c, time_limit=t, deep={"policy": "hamilton", "steps": (lo, hi)})
     from jumanji.environments.routing.sokoban import generator as skg
     for gen, t in (("toy", 120), ("simple", 7), ("random", 3), ("random", 120), ("toy", 2), ("simple", 1),
                    ("random", 30), ("simple", 120), ("simple", 10), ("open", 60)):
@@ -547,7 +554,7 @@ QUICK = {
     "CVRP": ["n5s", "n20d", "zb6d", "n130d"], "LevelBasedForaging": ["g6a2f2v2l2cVNp0t100", "g8a3f3v3l3nGRp5t100", "g7a2f3v7l2nGRp0t40", "g5a3f1v5l2nVNp0t40"],
     "Maze": ["r4c7tNone", "r5c5t7", "r13c13tNone"], "MMST": ["n12e18a2k3t7", "n12e18a3k2t30"], "MultiCVRP": ["c6v2d", "c6v3s"],
     "PacMan": ["t40", "small200", "tunnel120"], "RobotWarehouse": ["s1x3h3a2r1q2t500", "s1x3h2a1r1q1t7"],
-    "Snake": ["r6c4t7", "r3c3t4000"], "Sokoban": ["simplet120", "randomt120", "simplet10", "opent60"], "TSP": ["n5d", "n3d", "lat6s", "n130d"],
+    "Snake": ["r6c4t7", "r3c3t4000", "r12c12t20000deep", "r6c6t4000deep"], "Sokoban": ["simplet120", "randomt120", "simplet10", "opent60"], "TSP": ["n5d", "n3d", "lat6s", "n130d"],
 }
 
 
@@ -728,6 +735,22 @@ class Bundle:
             a = self.raw_action(r)
         return a
 
+
+def _snake_hamilton(env, state):
+    """Next move along a fixed Hamiltonian cycle of the board (num_rows even): row 0 left to right, the other rows
+    zig-zag over columns 1.., the last row runs back to column 0 and column 0 leads up.  A snake that follows it
+    never hits a wall or itself.  Actions: 0 up, 1 right, 2 down, 3 left."""
+    import jax.numpy as jnp
+
+    r, c = state.head_position.row, state.head_position.col
+    R, C = env.num_rows, env.num_cols
+    col0 = jnp.where(r == 0, 1, 0)
+    even = jnp.where(c < C - 1, 1, 2)
+    odd = jnp.where(r == R - 1, 3, jnp.where(c > 1, 3, 2))
+    return jnp.where(c == 0, col0, jnp.where(r % 2 == 0, even, odd)).astype(jnp.int32)
+
+
+DEEP_POLICIES = {"Snake": {"hamilton": _snake_hamilton}}
 
 _BUNDLES: dict = {}
 
